@@ -132,6 +132,23 @@ func suiteGrammar(o *Out, thorough bool, seed int64) {
 		t := g.expr(0, 1+r.Intn(5))
 		emitParse(o, []byte(spaceOut(r, t)), true)
 	}
+	// (e) not derivable, though everything but ONE character is: a single stray character after the member name
+	// that the parser's look-ahead (name on the line after the dot) has already seen once
+	for _, base := range []string{"a", "f(x", "[x", "(a", "g(1, y"} {
+		for _, dot := range []string{".", "!."} {
+			for _, nl := range []string{"\n", "\r\n", "\r", "\u2028", "\u2029", "\u0085", " \n  "} {
+				for _, name := range []string{"b", "typeof", "this"} {
+					for _, junk := range []string{"#", "@", "\\", "\x80", "`", "\u00a7"} {
+						for _, tail := range []string{"", " + 1", " c", " , c"} {
+							closing := map[byte]string{'f': ")", '[': "]", '(': ")", 'g': ")"}[base[0]]
+							emitParse(o, []byte(base+dot+nl+name+" "+junk+tail+closing), true)
+							emitParse(o, []byte(base+dot+nl+name+junk+tail+closing), true)
+						}
+					}
+				}
+			}
+		}
+	}
 }
 
 // spaceOut replaces single spaces by random trivia that is not a line break, and adds trivia at the ends
@@ -289,7 +306,8 @@ var spacingLex = []string{"a", "b1", "$c", "_", "1", "2.5", "1.", ".5", "1e3", "
 	"(", ")", "[", "]", ",", ".", "!.", "...", "=", "?", ":", "+", "-", "!", "!!", "~", "*", "/", "%", "<", "<=", ">", ">=",
 	"==", "===", "!=", "!==", "&&", "||", "??", "&", "|", "^", "é", "truex"}
 
-var separators = []string{"", " ", "\t", "\u00a0", "\n", "\u2028", "  \t", "\r\n", "\u0085", "\n ", "\n\t", " \n ", "\r\n  ", "\u2028\u00a0"}
+var separators = []string{"", " ", "\t", "\u00a0", "\n", "\u2028", "  \t", "\r\n", "\u0085", "\n ", "\n\t", " \n ", "\r\n  ", "\u2028\u00a0",
+	"\ufeff", "\u200b", "\u1680", "\u2003", "\u3000", "\u202f", "\u205f", "\v", "\f", "\r", "\u2029", "\u00a0\ufeff", "\u200b\n"}
 
 func suiteSpacing(o *Out, thorough bool, seed int64) {
 	r := newRand(seed, "spacing")
